@@ -253,9 +253,11 @@ def callMethod {V : Type} [Val V] (d : Decl V) (obs : Bool) (act : Action V) (st
       | some c => (some { c with value := Val.add c.value amount }, .ok)    -- self._value.inc(amount)
       | none => (st, .raised .attributeError)
   | .counter, .reset =>
-    match st with
-    | some c => (some { c with value := Val.zero }, .ok)           -- self._value.set(0)
-    | none => (st, .raised .attributeError)
+    -- `self._raise_if_not_observable()` only if the source has it as first statement (finding F7: it has not)
+    if counterResetChecksObservable && !obs then (st, .raised .valueError)
+    else match st with
+      | some c => (some { c with value := Val.zero }, .ok)           -- self._value.set(0)
+      | none => (st, .raised .attributeError)
   -- Gauge (multiprocess_mode 'all': `_is_most_recent` is False)
   | .gauge, .inc amount =>
     if !obs then (st, .raised .valueError)
@@ -287,12 +289,13 @@ def callMethod {V : Type} [Val V] (d : Decl V) (obs : Bool) (act : Action V) (st
       | none => (st, .raised .attributeError)
   -- Info
   | .info, .info val =>
-    match st with
-    | none => (st, .raised .attributeError)                        -- self._labelname_set
-    | some c =>
-      if val.any (fun kv => d.labelnames.contains kv.1) then (st, .raised .valueError)
-      else if val.any (fun kv => kv.2.isNone) then (st, .raised .valueError)
-      else (some { c with info := val.filterMap (fun kv => kv.2.map (fun v => (kv.1, v))) }, .ok)
+    if infoChecksObservable && !obs then (st, .raised .valueError)  -- see Counter.reset
+    else match st with
+      | none => (st, .raised .attributeError)                        -- self._labelname_set
+      | some c =>
+        if val.any (fun kv => d.labelnames.contains kv.1) then (st, .raised .valueError)
+        else if val.any (fun kv => kv.2.isNone) then (st, .raised .valueError)
+        else (some { c with info := val.filterMap (fun kv => kv.2.map (fun v => (kv.1, v))) }, .ok)
   -- Enum
   | .enum states, .state s =>
     if !obs then (st, .raised .valueError)
